@@ -166,6 +166,22 @@ check('C16', 'specs/Url.tla + specs/ClaimApi.tla + harness/c16_claimurl.py',
       'judged modulo the code\'s canonical form.',
       'TLA+ case enumeration (grammar automaton) + TLA+ API-history model; TLC-generated cases and call sequences replayed on the real code', 'DESIGN.md 5/C16')
 
+check('C04', 'specs/Sighash.tla + harness/c04_sighash.py',
+      'Sighash.tla, a symbolic (Dolev-Yao) signing model, is checked exhaustively by TLC (1-3 inputs x 1-3 outputs x kinds of spent output x claim '
+      'position x signing order x every single-field mutation x signing again; 9k states quick, 23k thorough) against a declarative binding table for '
+      'SIGHASH_ALL and for channel signatures. Every TLC state is replayed on a real transaction built and signed by the wallet code with seeded keys. '
+      'Each input must verify with a verifier independent of lbry-sdk: own wire parser, own encoders rendering the specification\'s preimage layout, '
+      'hashlib, pure-Python ecdsa, and the carried public key must hash to what the spent output pays. Each claim verdict of the real is_signed_by '
+      '(live and re-parsed) must equal the specification\'s, and an independent ecdsa verification over the specification\'s digest layout must agree. '
+      'Mutations are single-bit flips inside the named field; recorded old-release claims (legacy and DER-key forms) must validate and react to '
+      'mutations as specified; the wallet\'s own builders (pay, purchase, create, claim_create, claim_update, support) are covered.',
+      'ECDSA/secp256k1 arithmetic, SHA-256 and RIPEMD-160 are trusted to the independent implementations (pure-Python ecdsa, hashlib); that part is '
+      'differential checking attached to the model\'s cases. Bounds: <=3 inputs and outputs, p2pkh / claim-prefixed / time-lock script-hash spends only '
+      '(no multisig). A refusal by exception counts as does-not-validate. ECDSA (r, n-s) malleability is outside the single-bit quantifier. Only three '
+      'recorded old-release claims exist.',
+      'TLA+ symbolic binding model (TLC exhaustive) + state-by-state replay on real signed transactions with an independent SIGHASH_ALL/ECDSA verifier',
+      'DESIGN.md 5/C04')
+
 NOT_YET = 'check not built yet in this round (design in DESIGN.md section 5); will be claimed once its driver exists'
 ALL = [f'C{i:02d}' for i in range(1, 21)]
 
